@@ -5,6 +5,8 @@
    generators are Model.Ir2Py (hand model, text and value correspondence on every run).
    All arithmetic theorems hold for every width bits t > 0 and every in-range operand. *)
 From PV Require Import Lib.Py Spec.IRSemArith Gen.ir2py_runtime Model.Ir2Py Proofs.C24_ir2py.
+From PV Require Spec.IRSyntax Spec.IRSem.
+From PV Require Import Model.Ir2PyFunc Proofs.C24_func Model.Ir2PyRot Proofs.C24_rot.
 From Coq Require Import String.
 Open Scope Z_scope.
 
@@ -33,6 +35,13 @@ Theorem c24_binop_rol_refuted :
                   py_binop Rol t a b = Internal (OtherI 1).
 Proof. exact binop_rol_refuted. Qed.
 Print Assumptions c24_binop_rol_refuted.
+
+(* the repaired lowering (fixes/C24-rol-ror.diff: r = rt.irol(a, b, bits); r = rt.correct(...)) is exact *)
+Theorem c24_binop_rot_exact : forall op t a b v,
+  0 < bits t -> (op = Rol \/ op = Ror) -> in_range t a -> in_range t b ->
+  sem_binop op t a b = Some v -> py_rot op t a b = Ok v.
+Proof. exact rot_exact. Qed.
+Print Assumptions c24_binop_rot_exact.
 
 Theorem c24_unop_exact : forall op t a, 0 < bits t -> py_unop op t a = Ok (sem_unop op t a).
 Proof. exact unop_exact. Qed.
@@ -107,6 +116,61 @@ Theorem c24_ptr_is_4_byte_signed :
   ls_row "ptr" = Some ("i", 4, "i")%string /\ forall mem, store "ptr" mem 0 (2 ^ 31) = Internal StructError.
 Proof. split; [exact ptr_is_i32 | exact ptr_store_high_address_fails]. Qed.
 Print Assumptions c24_ptr_is_4_byte_signed.
+
+(* ---- whole functions: the emitted `while True:` block dispatcher simulates the IR semantics.
+   Model.Ir2PyFunc.compile_func = generate_function for the integer / branch / phi / return fragment
+   (i8..u64 constants in range, + - * / % | & ^ << >>, unary - ~, int->int casts, phis, jump, cjump,
+   return; printed text compared with the real emitted text for generated CFGs on every run);
+   run_pfunc = the CPython meaning of that text.  For every well-formed module, every function of the
+   fragment and all integer arguments in range: whenever the reference semantics Spec.IRSem.run_function
+   terminates with a value (no undefined behaviour), the emitted Python function returns that value, for
+   every sufficiently large bound on the number of loop iterations.  Unbounded over functions, CFG shapes,
+   loops and fuel; for both ways of releasing the stack at return (st: /repo's rt.free(<static>) and the
+   repaired stack mark).  Calls, memory, alloc, floats, ptr, rol/ror, Undefined are outside the fragment
+   (compile_func = None). *)
+Theorem c24_block_switch_simulates : forall st c m fname f pf zs s fuel v s',
+  IRSyntax.wf_modul m = true -> IRSyntax.find_func m fname = Some f -> compile_func_s st f = Some pf ->
+  Forall2 (fun z p => exists it, ity_of (snd p) = Some it /\ in_range it z) zs (IRSyntax.f_params f) ->
+  IRSem.run_function c m fname (map IRSem.Vint zs) s fuel = IRSem.ODone (Some (IRSem.Vint v), s') ->
+  exists F, forall F', (F <= F')%nat -> run_pfunc F' pf zs = Ok v.
+Proof. exact block_switch_simulates_wf. Qed.
+Print Assumptions c24_block_switch_simulates.
+
+(* the same with the computable side condition names_okb instead of wf_modul *)
+Theorem c24_block_switch_simulates_names : forall st c m fname f pf zs s fuel v s',
+  IRSyntax.find_func m fname = Some f -> compile_func_s st f = Some pf -> names_okb f = true ->
+  Forall2 (fun z p => exists it, ity_of (snd p) = Some it /\ in_range it z) zs (IRSyntax.f_params f) ->
+  IRSem.run_function c m fname (map IRSem.Vint zs) s fuel = IRSem.ODone (Some (IRSem.Vint v), s') ->
+  exists F, forall F', (F <= F')%nat -> run_pfunc F' pf zs = Ok v.
+Proof. exact block_switch_simulates. Qed.
+Print Assumptions c24_block_switch_simulates_names.
+
+(* non-vacuous: a loop that swaps two phis n times (a, b = b, a), 5 iterations *)
+Definition c24_swap_modul : IRSyntax.modul :=
+  IRSyntax.mk_modul "ex" [] []
+  [IRSyntax.mk_func "swap" IRSyntax.BGlobal (Some IRSyntax.I32) [("n"%string, IRSyntax.I32)]
+   [IRSyntax.mk_block 1 "entry" [IRSyntax.IConst 1 "k3" IRSyntax.I32 (IRSyntax.CInt 1);
+                                 IRSyntax.IConst 2 "k4" IRSyntax.I32 (IRSyntax.CInt 2);
+                                 IRSyntax.IConst 3 "k5" IRSyntax.I32 (IRSyntax.CInt 0); IRSyntax.IJump 2];
+    IRSyntax.mk_block 2 "hdr" [IRSyntax.IPhi 4 "a" IRSyntax.I32 [(1%positive, IRSyntax.Loc 1); (3%positive, IRSyntax.Loc 5)];
+                               IRSyntax.IPhi 5 "b" IRSyntax.I32 [(1%positive, IRSyntax.Loc 2); (3%positive, IRSyntax.Loc 4)];
+                               IRSyntax.IPhi 6 "i" IRSyntax.I32 [(1%positive, IRSyntax.Loc 3); (3%positive, IRSyntax.Loc 8)];
+                               IRSyntax.ICJump (IRSyntax.Loc 6) IRSyntax.Clt (IRSyntax.Param 0) 3 4];
+    IRSyntax.mk_block 3 "body" [IRSyntax.IConst 7 "k1" IRSyntax.I32 (IRSyntax.CInt 1);
+                                IRSyntax.IBinop 8 "i2" IRSyntax.I32 IRSyntax.Add (IRSyntax.Loc 6) (IRSyntax.Loc 7);
+                                IRSyntax.IJump 2];
+    IRSyntax.mk_block 4 "ex" [IRSyntax.IBinop 9 "r" IRSyntax.I32 IRSyntax.Sub (IRSyntax.Loc 4) (IRSyntax.Loc 5);
+                              IRSyntax.IConst 10 "k2" IRSyntax.I32 (IRSyntax.CInt 10);
+                              IRSyntax.IBinop 11 "r2" IRSyntax.I32 IRSyntax.Mul (IRSyntax.Loc 9) (IRSyntax.Loc 10);
+                              IRSyntax.IBinop 12 "r3" IRSyntax.I32 IRSyntax.Add (IRSyntax.Loc 11) (IRSyntax.Loc 4);
+                              IRSyntax.IReturn (IRSyntax.Loc 12)]]]%string.
+Example c24_block_switch_nonvacuous :
+  IRSyntax.wf_modul c24_swap_modul = true /\
+  exists f pf s', IRSyntax.find_func c24_swap_modul "swap" = Some f /\ compile_func f = Some pf /\
+    IRSem.run_function IRSem.default_cfg c24_swap_modul "swap" (map IRSem.Vint [5]) (IRSem.init_st IRSem.default_cfg c24_swap_modul) 30
+      = IRSem.ODone (Some (IRSem.Vint 12), s') /\
+    run_pfunc 30 pf [5] = Ok 12.
+Proof. split; [vm_compute; reflexivity|]. do 3 eexists. repeat split; vm_compute; reflexivity. Qed.
 
 (* hypotheses are inhabited: i8 100 * 3 wraps to 44; -7 / 2 = -3; -7 % 2 = -1; -128 >> 7 = -1 *)
 Example c24_nonvacuous :
